@@ -398,9 +398,9 @@ R("window_toggle", 2, lambda c: {"pool": c.pool(2, True), "f": c.fn("inner")},
   lambda w, n, a, i: i[0].pipe(ops.window_toggle(i[1], F(w, n, a, "f"))), {"inner", "cb", "pool"})
 R("buffer_toggle", 2, lambda c: {"pool": c.pool(2, True), "f": c.fn("inner")},
   lambda w, n, a, i: i[0].pipe(ops.buffer_toggle(i[1], F(w, n, a, "f"))), {"cb", "pool"})
-R("join", 2, lambda c: {"pool": c.pool(2, True), "f": c.fn("inner"), "g": c.fn("inner")},
+R("join", 2, lambda c: {"pool": c.pool(2, True), "f": c.fn("inner"), "g": c.fn(c.rng.choice(["inner", "inner_alt"]))},
   lambda w, n, a, i: i[0].pipe(ops.join(i[1], F(w, n, a, "f"), F(w, n, a, "g"))), {"cb", "pool"})
-R("group_join", 2, lambda c: {"pool": c.pool(2, True), "f": c.fn("inner"), "g": c.fn("inner")},
+R("group_join", 2, lambda c: {"pool": c.pool(2, True), "f": c.fn("inner"), "g": c.fn(c.rng.choice(["inner", "inner_alt"]))},
   lambda w, n, a, i: i[0].pipe(ops.group_join(i[1], F(w, n, a, "f"), F(w, n, a, "g"))), {"inner", "cb", "pool"})
 R("rx.for_in", 1, lambda c: {"pool": c.pool(2), "f": c.fn("inner"), "v": [vt.gen_value(c.rng) for _ in range(c.rng.randrange(0, 4))]},
   lambda w, n, a, i: rx.concat(i[0], rx.for_in([V(x) for x in a["v"]], F(w, n, a, "f"))), {"cb", "pool"})
